@@ -1,6 +1,7 @@
 package activitypub
 
 import (
+	"bytes"
 	"encoding/json"
 	"fmt"
 	"time"
@@ -64,8 +65,16 @@ func JSONWriteNaturalLanguageProp(b *[]byte, n string, nl NaturalLanguageValues)
 	return false
 }
 
+// jsonString returns s as a JSON string literal: quotes, backslashes and control characters are
+// escaped and invalid UTF-8 is replaced, so the value can not terminate its own string.
+func jsonString(s string) []byte {
+	buf := bytes.Buffer{}
+	stringBytes(&buf, []byte(s), false)
+	return buf.Bytes()
+}
+
 func JSONWriteStringProp(b *[]byte, n string, s string) (notEmpty bool) {
-	return JSONWriteProp(b, n, []byte(fmt.Sprintf(`"%s"`, s)))
+	return JSONWriteProp(b, n, jsonString(s))
 }
 
 func JSONWriteBoolProp(b *[]byte, n string, t bool) (notEmpty bool) {
